@@ -38,7 +38,8 @@ TRUSTED = [
 ASSUMPTIONS = [
     "link: every datagram reaches every host that is up within 100 ms at least once, except one chosen delivery (K7)",
     "API discipline: services have unique names and one owner; update/unregister are issued on registered services; a host is closed "
-    "no earlier than 900 ms after its last register/update and 300 ms after its last unregister (an application awaiting the returned broadcast task)",
+    "no earlier than 400 ms after its last register/update call (after the call returned) and 300 ms after its last unregister (an application "
+    "awaiting the broadcast task that unregister returns); API calls on one service are at least 1 ms apart",
     "observation horizon below the 1125 s PTR TTL floor (no expiry-driven Removed)",
 ]
 
@@ -55,7 +56,24 @@ CFG = dict(ann=[350, 575, 800], upd=[0, 225, 450], bye=[0, 125, 250], maxDelay=1
 # scenario generation
 
 
+def gen_close_family(rng):
+    """a browser that starts before a registration asks its second (QM) question just after the first announcement, so the
+    answer waits a second in the protected multicast queue; the owner is closed (or the service unregistered) while it waits"""
+    nh = rng.choice([2, 3])
+    reg_t = rng.choice([650, 680, 700, 720, 740, rng.randint(600, 800)])
+    end_t = reg_t + rng.choice([1250, 1300, 1350, rng.randint(1100, 1500)])
+    ops = [[rng.choice([0, 1, rng.randint(0, 40)]), "browse", 1, 0], [reg_t, "register", 0]]
+    if nh == 3:
+        ops.append([rng.randint(0, 60), "browse", 2, 0])
+    ops.append([end_t, rng.choice(["close", "close", "unregister"]), 0])
+    ops.sort(key=lambda o: (o[0], o[1]))
+    return {"simseed": rng.randrange(1 << 30), "hosts": [{"up": 0} for _ in range(nh)], "types": 1, "svcs": [{"owner": 0, "ty": 0}], "ops": ops,
+            "net": {"seed": rng.randrange(1 << 30), "mode": rng.choice(["extreme", "extreme", "mixed"]), "drop": None, "dups": "none"}}
+
+
 def gen_case(rng, idx=0):
+    if rng.random() < 0.12:
+        return gen_close_family(rng)
     nh = rng.choice([2, 2, 3, 3, 4, 5])
     ntypes = rng.choice([1, 1, 2, 3])
     nsvc = rng.randint(1, 6)
@@ -106,7 +124,7 @@ def gen_case(rng, idx=0):
         ops.append([t, "browse", h, ty])
     if nh > 2 and rng.random() < 0.35:
         h = rng.randrange(nh)
-        t = max(hosts[h]["up"] + rng.randint(500, 7000), last_reg_on_host.get(h, 0) + 900 + rng.choice([0, 1, rng.randint(0, 3000)]),
+        t = max(hosts[h]["up"] + rng.randint(500, 7000), last_reg_on_host.get(h, -400) + 400 + rng.choice([0, 1, rng.randint(0, 3000)]),
                 last_unreg_on_host.get(h, 0) + 300 + rng.choice([0, 1, rng.randint(0, 3000)]))
         ops = [o for o in ops if not (_op_host(o, svcs) == h and o[0] >= t)]
         ops.append([t, "close", h])
@@ -585,6 +603,9 @@ def monitors(tr, endT, cfg=CFG):
     def up_at(h, t):
         return any(u[2] == h and u[0] <= t for u in ups)
 
+    def up_before(h, t):
+        return any(u[2] == h and u[0] < t for u in ups)
+
     def closed_by(h, t):
         return any(c[2] == h and c[0] <= t for c in closes)
 
@@ -635,7 +656,7 @@ def monitors(tr, endT, cfg=CFG):
         if t + D > endT:
             continue
         for h in hostset:
-            if (dst is None or dst == h) and up_at(h, t) and not closed_by(h, t + D):
+            if (dst is None or dst == h) and up_before(h, t) and not closed_by(h, t + D):
                 if not any(e[2] == d and e[4] == h and e[6] == items and t <= e[0] <= t + D for e in dlvs):
                     missing.append((d, t, h))
     if any(a != b for a in missing for b in missing):
@@ -814,17 +835,22 @@ def oracle(case, obs):
                           % (f["b"], f["host"], miss[0], obs["endT"] - obs["lastChange"])))
         for b in f["bad"]:
             v.append(("C07:callback-" + b[0], "listener of browser %d got %s for %s at %d" % (f["b"], b[0], b[1], b[2])))
-    # lookups from Added
+    # lookups from Added: judged when the instance was registered when Added fired and stayed so until the lookup ended
+    # (an Added for an instance that is not registered is the resurrection reported above, not a lookup failure)
     unreg_times = {}
+    reg_times = {}
     for e in tr:
         if e[1] == "unreg":
             unreg_times.setdefault(e[2], []).append(e[0])
+        elif e[1] == "reg":
+            reg_times.setdefault(e[2], []).append(e[3] if len(e) > 3 else e[0] + 350)
     close_times = {e[2]: e[0] for e in tr if e[1] == "close"}
     for lk in obs["lookups"]:
         s = lk["s"]
         bh = obs["browsers"][lk["b"]]["host"]
-        if any(lk["t0"] - 1200 <= t <= lk["t1"] + 200 for t in unreg_times.get(s, [])):
-            continue  # withdrawn around the lookup: nothing is promised
+        done = [t for t in reg_times.get(s, []) if t <= lk["t0"]]
+        if not done or any(max(done) - 350 <= t <= lk["t1"] + 200 for t in unreg_times.get(s, [])):
+            continue  # not registered at Added, or withdrawn around the lookup: nothing is promised
         if bh in close_times and close_times[bh] <= lk["t1"] + 300:
             continue
         if lk["ok"] is not True:
@@ -950,36 +976,58 @@ def run_inner(ctx):
     seed = ctx["seed"]
     rng = C.rng_for(seed, "c07")
     tier = ctx["tier"]
-    n_scen = C.Budget(tier, 36, 700).n
-    drops_per = 7 if tier != "thorough" else 40
+    thorough = tier == "thorough"
+    n_scen = C.Budget(tier, 80, 300).n
+    n_sweep = 0 if not thorough else max(1, n_scen // 10)  # scenarios whose every delivery is dropped in turn
+    drops_per = 8 if not thorough else 24
+    lean_cap = 170 if not thorough else 1500  # the compiled Lean monitors cost ~0.1 s per trace: evaluated on a sample
     if ctx.get("widened"):
         n_scen *= 3
     lean_jobs = []
+    all_jobs = []
+
+    def one(case, tag, want_lean):
+        jobs = []
+        obs = check_case(case, res, ctx, tag, jobs)
+        brief, tr, endT, mon, conc = jobs[0]
+        interesting = any(mon.values()) or bool(conc)
+        if (want_lean and len(lean_jobs) < 2 * lean_cap) or (interesting and len(lean_jobs) < lean_cap + 60):
+            lean_jobs.append(jobs[0])
+        return obs
+
     for name, body in C.load_corpus("C07"):
         case = body.get("case", body)
         case = case.get("case", case)
-        check_case(case, res, ctx, "corpus/" + name, lean_jobs)
+        one(case, "corpus/" + name, True)
         res.count("corpus")
     for i in range(n_scen):
         case = gen_case(rng, i)
-        base = check_case(case, res, ctx, "gen/%d" % i, lean_jobs)
+        base = one(case, "gen/%d" % i, True)
         n = base["ndeliveries"]
-        # every choice of one dropped delivery: swept in thorough (up to a cap), sampled in quick; biased to deliveries of
-        # announcements / goodbyes / responses (the ones the argument depends on)
+        # every choice of one dropped delivery: swept for the first scenarios of the thorough tier, sampled otherwise and
+        # biased to deliveries of PTR-carrying datagrams (announcements / goodbyes / answers: the ones the argument rests on)
         tg = base["targets"]
         important = [x[0] for x in tg if any(it[0] == "p" for it in _items_of(base, x[1]))]
-        cand = drop_choices(rng, n, drops_per)
-        if important:
-            cand = sorted(set(cand) | set(rng.sample(important, min(len(important), max(2, drops_per // 2)))))
+        if i < n_sweep:
+            cand = list(range(n))
+            res.count("scenarios-with-every-single-drop-swept")
+        else:
+            cand = drop_choices(rng, n, drops_per)
+            if important:
+                cand = sorted(set(cand) | set(rng.sample(important, min(len(important), max(2, drops_per // 2)))))
+        lean_pick = set(rng.sample(cand, min(len(cand), 2))) if len(lean_jobs) < lean_cap else set()
         for d in cand:
             c2 = json.loads(json.dumps(case))
             c2["net"]["drop"] = d
-            check_case(c2, res, ctx, "gen/%d/drop%d" % (i, d), lean_jobs)
+            one(c2, "gen/%d/drop%d" % (i, d), d in lean_pick)
+    res.count("traces-evaluated-by-lean-monitors", len(lean_jobs))
     if ctx.get("driver_ok"):
         lean_compare(res, lean_jobs)
     res.rule = ("random scenarios (2-5 hosts, up to 30% started late; 1-6 services of 1-3 types with register / update / unregister / re-register at "
                 "boundary-biased gaps; 1-4 browsers before/during/after; optional close) x delivery schedules (0..100 ms uniform / extremes / mixed, "
-                "duplication none/some/many) x one dropped delivery (sampled, biased to PTR-carrying datagrams; swept up to a cap in thorough); "
+                "duplication none/some/many) x one dropped delivery (sampled, biased to PTR-carrying datagrams; every delivery in turn for the first "
+                "tenth of the thorough scenarios); oracle and Python contract monitors on every run, compiled Lean monitors on a sample (all corpus, all "
+                "base runs, two drops per scenario, every run on which a monitor or the conclusion failed); "
                 "non-trivial = distinct (hosts, services, types, browsers, late host, drop, delay mode, dups, close, update, unregister, Removed seen, refused registration)")
     return res
 
